@@ -5,27 +5,36 @@ import cybuild, framework
 TITLE = "The compiler never crashes and accepts all valid Python"
 EXTRACTS = ["Lexicon"]
 RULE = ("programs: grammar-generated valid Python 3.12 modules (props/C43_gen.py: every statement/expression kind incl. match, "
-        "walrus, async, decorators, f-strings, star-expressions, except*), literal-focused modules (huge numbers, all "
-        "prefixes/escapes, deep nesting), mutated/truncated variants, fixed regression probes; each compiled as .py (and "
-        "mutants also as .pyx) by the compiler under test in a forked warm process, the C checked by gcc -fsyntax-only; "
-        "distinct by source hash. tokens: number-like strings (all strings over a reduced alphabet up to a length, "
-        "grammar-generated and mutated literals): real PyrexScanner + p_int_literal + str_to_number vs extracted model vs "
-        "CPython tokenizer/int()")
+        "walrus, async, decorators, f-strings, star-expressions, except*, relative imports), literal-focused modules (huge numbers, "
+        "all prefixes/escapes, deep nesting), mutated/truncated variants, systematic token/grammar interaction snippets (dot runs of "
+        "length 1..7 (thorough: 1..40) in from-imports in every spelling and form, '...' in every expression position, operators "
+        "glued without spaces, soft keywords as names; grouped into modules, a failing group is bisected), fixed regression probes "
+        "and one minimal witness per registered input family; each compiled as .py (mutants also as .pyx) by the compiler under "
+        "test, the C checked by gcc -fsyntax-only; distinct by source hash; a failure outside the registered families is re-run in "
+        "a pristine forked compiler before it is reported. tokens: number-like strings (all strings over a reduced alphabet up to a "
+        "length, grammar-generated and mutated literals) and runs of 1..40 dots after 'from': real PyrexScanner + p_int_literal + "
+        "str_to_number + p_from_import_statement vs extracted model vs CPython tokenizer/int()/ast")
 EXPLANATION = ("theorems: a regular-inclusion decision procedure (derivative pairs modulo similarity, certificate re-checked) "
                "proved sound for ALL words; with it Python 3.12's integer/float/imaginary literal grammar is included, token "
                "kind by token kind, in the lexicon's number rules (rules dumped from the running make_lexicon and proved equal "
                "to the transcribed model) - refuted for imagconst as it is (0_7j), proved outside that family and for the "
                "repaired rule; string prefixes included; the integer decoder is refuted total (08; 4301 digits) and the "
-               "repaired p_int_literal never crashes. partial: parser, analysis and code generation are not modelled - the "
-               "never-crashes / accepts-valid-Python / C-compiles statements are tested on generated programs only.")
+               "repaired p_int_literal never crashes; the punctuation rule (ellipsis | punct | diphthong) under longest match "
+               "turns a run of n dots into n/3 '...' tokens followed by n mod 3 '.' tokens for EVERY n, no number rule matches a "
+               "run of dots, and the relative-import level added up from the token lengths is n (executable longest-match "
+               "function proved against the language semantics). partial: parser, analysis and code generation are not "
+               "modelled - the never-crashes / accepts-valid-Python / C-compiles statements are tested on generated programs only.")
 LEVEL_TEXT = ("partial: machine-checked for the literal front end (number-token inclusion for all strings, decoder totality "
-              "refuted with witnesses and proved for the repaired parser); everything behind the scanner is differential "
-              "testing against CPython's compile() with an explicit documented-rejection allowlist")
+              "refuted with witnesses and proved for the repaired parser, dot-run tokenisation and import level for all run "
+              "lengths); everything behind the scanner is differential testing against CPython's compile() with an explicit "
+              "documented-rejection allowlist and a registry of input-family known findings")
 TRUSTED = ["CPython compile()/tokenize/int() as the oracle of valid Python and of literal values",
            "gcc -fsyntax-only with the CPython headers as the oracle of 'the C compiler accepts'",
            "M_Plex.ere_of as the reading of a Plex RE (C50 proves the scanner against it, not build_machine)",
            "py_int_base: CPython's int(text, base) contract on digit strings (digit limit 4300 for non power-of-two bases)",
-           "the documented-rejection allowlist ALLOW below (written from docs/src/userguide/limitations + tested messages)"]
+           "the documented-rejection allowlist ALLOW below (written from docs/src/userguide/limitations + tested messages)",
+           "Parsing.p_from_import_statement adds len(token) per '.'/'...' token to the level (M_Lexicon.import_level); tied by the run for 1..40 dots",
+           "the source predicates of the input families (_ast_families): they only decide under which NAME a failure is reported"]
 ASSUMPTIONS = ["language_level=3, default directives, C (not C++) output", "Python 3.12 grammar; PEP 695 syntax excluded as documented-unsupported"]
 
 # repairs in the tree under test (see proposed_fixes/C43-*.md); env overrides for patched worktrees
@@ -527,9 +536,108 @@ main()
 _batch_no = [0]
 
 
-def compile_batch(ctx, programs, jobs=6):
-    """programs: list of dict(id, ext, src) -> dict id -> result (with 'gcc': None | [rc, first error line])"""
+# the same compile_one in K long-lived worker processes, one program after the other in each (no fork per program: under load
+# the copy-on-write faults of a forked warm compiler cost seconds of system time per program).  A worker is not pristine after
+# its first compile, so run_programs() re-runs every failure that is not a registered known class through compile_batch(...,
+# pristine=True) (fork per program from a warm, untouched parent) before it is reported.
+POOLRUN = COMPRUN.rsplit("main()\n", 1)[0] + r'''
+class _Alarm(BaseException): pass
+def _h(*a): raise _Alarm()
+signal.signal(signal.SIGALRM, _h)
+outdir = sys.argv[1]; tmo = int(sys.argv[2]); os.makedirs(outdir, exist_ok=True)
+w = compile_one({"id": "_warm", "ext": ".py", "src": "def w(a, i):\n    return a[i] // 2, f'{a!r:>{i}}'\n"}, outdir)
+pyload.assert_sources()
+sys.setrecursionlimit(8000)
+real_out = sys.__stdout__
+real_out.write("READY " + str(w["outcome"]) + "\n"); real_out.flush()
+for line in sys.stdin:
+    req = json.loads(line)
+    signal.alarm(tmo)
+    try:
+        r = compile_one(req, outdir)
+        if r.get("exc") and r["exc"].get("type") == "_Alarm":
+            r = {"id": req["id"], "outcome": "timeout", "status": 14, "errors": [], "exc": None, "traceback_in_log": False, "log": "", "c": None}
+    except BaseException as e:
+        r = {"id": req["id"], "outcome": "timeout" if isinstance(e, _Alarm) else "died", "status": 14, "errors": [], "exc": None,
+             "traceback_in_log": False, "log": repr(e)[:200], "c": None}
+    signal.alarm(0)
+    try:
+        Errors.init_thread()        # drop error stacks that a crashed compile left behind
+    except Exception:
+        pass
+    real_out.write(json.dumps(r) + "\n"); real_out.flush()
+'''
+
+
+def _pool_compile(ctx, programs, jobs, out, tmo=180):
+    import threading
+    wdir = os.path.join(ctx.workdir, "poolrun")
+    os.makedirs(wdir, exist_ok=True)
+    script = os.path.join(wdir, "poolrun.py")
+    with open(script, "w") as f:
+        f.write(POOLRUN)
+    res, lock, it = {}, threading.Lock(), iter(list(programs))
+    dead = {"outcome": "died", "status": -1, "errors": [], "exc": None, "traceback_in_log": False, "log": "", "c": None}
+
+    def start(i):
+        p = subprocess.Popen([cybuild.PY, script, os.path.join(out, "w%d" % i), str(tmo)], stdin=subprocess.PIPE, stdout=subprocess.PIPE,
+                             stderr=subprocess.DEVNULL, text=True, env=cybuild.base_env(), cwd=wdir)
+        l = p.stdout.readline()
+        while l and not l.startswith("READY"):
+            l = p.stdout.readline()
+        if l.strip() != "READY ok":
+            raise RuntimeError("C43 compile worker failed to start: %r" % l)
+        return p
+
+    def work(i):
+        p = start(i)
+        while True:
+            with lock:
+                q = next(it, None)
+            if q is None:
+                break
+            try:
+                p.stdin.write(json.dumps(q) + "\n"); p.stdin.flush()
+                l = p.stdout.readline()
+                while l and not l.startswith("{"):
+                    l = p.stdout.readline()
+            except (BrokenPipeError, OSError):
+                l = ""
+            if l:
+                res[q["id"]] = json.loads(l)
+            else:                   # the worker died on this program (hard crash of the interpreter): a finding; go on with a new one
+                res[q["id"]] = dict(dead, id=q["id"], status=p.poll())
+                try:
+                    p.kill()
+                except OSError:
+                    pass
+                p = start(i)
+        try:
+            p.stdin.close(); p.wait(timeout=20)
+        except Exception:
+            p.kill()
+
+    errs = []
+    def guarded(i):
+        try:
+            work(i)
+        except BaseException as e:
+            errs.append(e)
+    ts = [threading.Thread(target=guarded, args=(i,)) for i in range(max(1, min(jobs, len(programs))))]
+    [t.start() for t in ts]
+    [t.join() for t in ts]
+    if errs:
+        raise errs[0]
+    return res
+
+
+def compile_batch(ctx, programs, jobs=6, pristine=False):
+    """programs: list of dict(id, ext, src) -> dict id -> result (with 'gcc': None | [rc, first error line]).
+    pristine=True: every program in a child forked from a warm parent that has compiled nothing else."""
     _batch_no[0] += 1
+    if not pristine:
+        out = os.path.join(ctx.workdir, "comp%d" % _batch_no[0])
+        return _gcc_all(_pool_compile(ctx, programs, jobs, out), jobs)
     out = os.path.join(ctx.workdir, "comp%d" % _batch_no[0])
     r = cybuild.run_script(COMPRUN, os.path.join(ctx.workdir, "comprun"), {"out": out, "jobs": jobs, "programs": programs,
                                                                            "timeout": 180}, name="comprun.py", timeout=3000)
@@ -539,18 +647,22 @@ def compile_batch(ctx, programs, jobs=6):
     for p in programs:
         with open(os.path.join(out, p["id"] + ".json")) as f:
             res[p["id"]] = json.load(f)
+    return _gcc_all(res, jobs)
+
+
+def _gcc_all(res, jobs):
     def gcc(rr):
         q = subprocess.run(["gcc", "-fsyntax-only", "-w", "-I" + cybuild.INC, rr["c"]], capture_output=True, text=True, timeout=600)
         errs = [l.split(": error: ", 1)[1] for l in q.stderr.splitlines() if ": error: " in l]
+        try:
+            os.unlink(rr["c"])
+        except OSError:
+            pass
         return [q.returncode, (errs[0][:160] if errs else q.stderr[-200:])]
     todo = [rr for rr in res.values() if rr.get("c")]
     with cf.ThreadPoolExecutor(max_workers=jobs) as ex:
         for rr, g in zip(todo, ex.map(gcc, todo)):
             rr["gcc"] = g
-            try:
-                os.unlink(rr["c"])
-            except OSError:
-                pass
     return res
 
 
@@ -594,6 +706,7 @@ def verdict(r):
 import builtins as _builtins, math as _math
 
 _BUILTIN_TYPE_NAMES = {n for n in dir(_builtins) if isinstance(getattr(_builtins, n), type)}
+_BUILTIN_NAMES = {n for n in dir(_builtins) if callable(getattr(_builtins, n)) and not n.startswith("_")}
 _COMPS = (ast.ListComp, ast.SetComp, ast.DictComp, ast.GeneratorExp)
 _FUNCS = (ast.FunctionDef, ast.AsyncFunctionDef, ast.Lambda)
 
@@ -609,13 +722,16 @@ def _numtypes(e):
         return _NUMTYPES_MEMO[k]
     r = None
     if isinstance(e, ast.Constant):
-        r = frozenset([type(e.value)]) if type(e.value) in (int, float, complex) else None
+        t = int if isinstance(e.value, bool) else type(e.value)      # True / False are C bint values
+        r = frozenset([t]) if t in (int, float, complex) else None
     elif isinstance(e, ast.UnaryOp) and isinstance(e.op, (ast.UAdd, ast.USub, ast.Invert)):
         r = _numtypes(e.operand)
     elif isinstance(e, ast.BinOp):
         x = _numtypes(e.left)
         y = _numtypes(e.right) if x is not None else None
         r = (x | y) if y is not None else None
+        if r is not None and isinstance(e.op, ast.Div):
+            r = r | frozenset([float])          # true division of numbers is typed double
     elif isinstance(e, ast.NamedExpr):
         r = _numtypes(e.value)
     _NUMTYPES_MEMO[k] = r
@@ -662,27 +778,7 @@ def _module_bindings(tree):
     return c
 
 
-def _terminates(s):
-    """statement after which the rest of its block is unreachable"""
-    if isinstance(s, (ast.Return, ast.Raise, ast.Continue, ast.Break)):
-        return True
-    if isinstance(s, ast.If):
-        if isinstance(s.test, ast.Constant) and s.test.value and _block_terminates(s.body):
-            return True
-        return bool(s.orelse) and _block_terminates(s.body) and _block_terminates(s.orelse)
-    if isinstance(s, (ast.Try, getattr(ast, "TryStar", ast.Try))):
-        return _block_terminates(s.finalbody) or (_block_terminates(s.body) and all(_block_terminates(h.body) for h in s.handlers)) \
-            or (bool(s.orelse) and _block_terminates(s.orelse) and all(_block_terminates(h.body) for h in s.handlers))
-    if isinstance(s, (ast.For, ast.AsyncFor, ast.While)):
-        return bool(s.orelse) and _block_terminates(s.orelse) or \
-            (isinstance(s, ast.While) and isinstance(s.test, ast.Constant) and bool(s.test.value))
-    if isinstance(s, (ast.With, ast.AsyncWith)):
-        return _block_terminates(s.body)
-    return False
-
-
-def _block_terminates(b):
-    return any(_terminates(s) for s in b)
+_JUMPS = (ast.Return, ast.Raise, ast.Continue, ast.Break)
 
 
 def _walk_no_scopes(n):
@@ -703,10 +799,15 @@ def _ast_families(src, tree):
             parent[c] = n
 
     def enclosing(n, kinds):
-        p = parent.get(n)
-        while p is not None and not isinstance(p, kinds):
-            p = parent.get(p)
-        return p
+        """nearest ancestor of one of the kinds whose BODY holds n (decorators, defaults, annotations, bases belong outside)"""
+        c, p = n, parent.get(n)
+        while p is not None:
+            if isinstance(p, kinds):
+                body = p.body if isinstance(p.body, list) else [p.body]
+                if any(c is b for b in body):
+                    return p
+            c, p = p, parent.get(p)
+        return None
 
     def has(n, kinds):
         return any(isinstance(x, kinds) for x in ast.walk(n))
@@ -737,13 +838,22 @@ def _ast_families(src, tree):
             blk = getattr(n, field, None)
             if isinstance(blk, list) and blk and isinstance(blk[0], ast.stmt):
                 for i, s in enumerate(blk[:-1]):
-                    if _terminates(s):
+                    # flow analysis decides what is unreachable (e.g. after a match whose cases all raise): any statement
+                    # that contains a return/raise/break/continue of this scope may end the reachable part of the block
+                    if isinstance(s, _JUMPS) or any(isinstance(x, _JUMPS) for x in _walk_no_scopes(s)):
                         if any(has(t, (ast.Lambda, ast.GeneratorExp)) for t in blk[i + 1:]):
                             f.add("closure_in_unreachable_code")
                         break
+        if isinstance(n, (ast.FunctionDef, ast.AsyncFunctionDef)):
+            for i, st in enumerate(n.body):
+                if isinstance(st, ast.ClassDef) and any(isinstance(x, _JUMPS) for x in _walk_no_scopes(st)) and \
+                        any(isinstance(x, ast.Call) and isinstance(x.func, ast.Name) for t in n.body[i + 1:] for x in ast.walk(t)):
+                    f.add("local_call_after_class_body_that_raises")
         if isinstance(n, getattr(ast, "TryStar", ())):
-            if enclosing(n, _FUNCS) is None:
-                f.add("except_star_outside_function")
+            fn = enclosing(n, _FUNCS)
+            if fn is None or isinstance(fn, ast.AsyncFunctionDef) or \
+                    (isinstance(fn, ast.FunctionDef) and any(isinstance(x, (ast.Yield, ast.YieldFrom)) for x in _walk_no_scopes(fn))):
+                f.add("except_star_outside_plain_function")      # module init function, generator / coroutine body
             for h in n.handlers:
                 if isinstance(h.type, ast.Tuple) and not h.type.elts:
                     f.add("except_star_empty_tuple")
@@ -766,6 +876,8 @@ def _ast_families(src, tree):
             parts = [sl] if isinstance(sl, ast.Slice) else [x for x in getattr(sl, "elts", []) if isinstance(x, ast.Slice)] if isinstance(sl, ast.Tuple) else []
             for p in parts:
                 for b in (p.lower, p.upper):
+                    while isinstance(b, ast.NamedExpr):
+                        b = b.value
                     if (isinstance(b, ast.Name) and b.id in _BUILTIN_TYPE_NAMES or isinstance(b, ast.Constant) and b.value is Ellipsis) \
                             and isinstance(sl, ast.Slice) and p.step is None:
                         f.add("slice_bound_type_name_or_ellipsis")
@@ -789,8 +901,8 @@ def _ast_families(src, tree):
                 f.add("walrus_in_class_header")
         if isinstance(n, ast.GeneratorExp) and enclosing(n, _FUNCS) is None and has(n, ast.NamedExpr):
             f.add("walrus_in_module_level_genexpr")
-        if isinstance(n, ast.AugAssign) and has(n.target, ast.GeneratorExp):
-            f.add("augassign_target_contains_genexpr")
+        if isinstance(n, ast.AugAssign) and has(n.target, (ast.GeneratorExp, ast.Lambda)):
+            f.add("augassign_target_contains_closure")
         if isinstance(n, ast.JoinedStr):
             for fv in n.values:
                 if isinstance(fv, ast.FormattedValue):
@@ -808,6 +920,16 @@ def _ast_families(src, tree):
             f.add("bitop_on_float_literal")
         if isinstance(n, ast.Call) and _is_num(n.func):
             f.add("call_of_numeric_literal")
+        if isinstance(n, ast.Call) and isinstance(n.func, ast.Name) and n.func.id in _BUILTIN_NAMES:
+            f.add("builtin_call")
+            if n.func.id == "float" and any(k.arg is not None for k in n.keywords):
+                f.add("float_call_with_keyword_argument")
+        if isinstance(n, ast.Compare):
+            ops = [n.left] + n.comparators
+            if any(isinstance(a, ast.Constant) and isinstance(a.value, str) and len(a.value) == 1 and ord(a.value) > 127 and _is_num(b, (int,)) or
+                   isinstance(b, ast.Constant) and isinstance(b.value, str) and len(b.value) == 1 and ord(b.value) > 127 and _is_num(a, (int,))
+                   for a, b in zip(ops, ops[1:])):
+                f.add("non_ascii_char_literal_compared_with_int_literal")
         if isinstance(n, (ast.FunctionDef, ast.AsyncFunctionDef, ast.ClassDef)) and any(_is_num(d) for d in n.decorator_list):
             f.add("call_of_numeric_literal")
         if isinstance(n, ast.Starred) and isinstance(getattr(n, "ctx", None), ast.Load) and \
@@ -834,6 +956,17 @@ def _ast_families(src, tree):
             f.add("await_in_nested_def_header")
         if isinstance(n, ast.ClassDef) and any(has(h, ast.Await) for h in list(n.bases) + [k.value for k in n.keywords]):
             f.add("await_in_nested_def_header")
+        if isinstance(n, (ast.With, ast.AsyncWith)) and any(
+                _is_num(i.context_expr, (float, complex)) or
+                (isinstance(i.context_expr, ast.Call) and isinstance(i.context_expr.func, ast.Name) and i.context_expr.func.id == "float")
+                for i in n.items):
+            f.add("with_context_c_float_value")         # float/complex literal or float(...) call: a C double for Cython
+        if isinstance(n, ast.Match) and isinstance(n.subject, ast.Constant) and isinstance(n.subject.value, bytes) and any(
+                isinstance(q, ast.MatchSequence) and any(isinstance(x, ast.MatchSequence) for x in ast.walk(q) if x is not q)
+                for c in n.cases for q in ast.walk(c.pattern)):
+            f.add("match_bytes_literal_nested_sequence_pattern")
+        if isinstance(n, (ast.FunctionDef, ast.AsyncFunctionDef)) and any(has(d, (ast.Yield, ast.YieldFrom)) for d in n.decorator_list):
+            f.add("yield_in_function_decorator")
         if isinstance(n, (ast.With, ast.AsyncWith)) and any(i.optional_vars is not None and has(i.optional_vars, _COMPS + (ast.Lambda,)) for i in n.items):
             f.add("closure_in_with_target")
         if isinstance(n, ast.GeneratorExp) and isinstance(n.generators[0].iter, ast.Attribute):
@@ -925,7 +1058,7 @@ FAMILY_RULES = [
     ("negated_int_literal_over_4300_digits", "crash", r"ValueError.*unop_node|unop_node.*ValueError", "negated_int_literal_over_4300_digits"),
     ("header_directive_warn_nogil_value", "crash", r"Options\.py:parse_directive_value", "header_directive_warn_nogil_value"),
     ("wrong_scope_header_directive", "crash", r"wrong_scope_error|InterpretCompilerDirectives", "wrong_scope_header_directive"),
-    ("imag_literal_leading_zero_underscore", "positioned", r"Syntax error in simple statement list|found '_[0-9_]*[jJ]'", "imag_literal_leading_zero_underscore"),
+    ("imag_literal_leading_zero_underscore", "positioned", r"found '_[0-9_]*[jJ]'", "imag_literal_leading_zero_underscore"),
     ("def_in_match_case_inline_call_crash", "crash", r"cf_is_null", "def_in_match_case"),
     ("def_in_match_case_c_error", "c_error", r"__pyx_mdef_", "def_in_match_case"),
     ("typed_str_setitem_c_index_invalid_c", "c_error", r"None.? undeclared", "typed_str_item_assignment"),
@@ -935,21 +1068,25 @@ FAMILY_RULES = [
     ("comprehension_in_class_header", "crash", r"AssertionError@FlowControl\.py:find_in_stack", "comprehension_in_class_header"),
     ("walrus_in_class_header", "crash", r"AttributeError@Code\.py:namespace_cname_in_module_state", "walrus_in_class_header"),
     ("walrus_in_module_level_genexpr", "crash", r"AssertionError@ParseTreeTransforms\.py:create_class_from_scope", "walrus_in_module_level_genexpr"),
-    ("augassign_target_contains_genexpr", "crash", r"AttributeError@FlowControl\.py:check_definitions", "augassign_target_contains_genexpr"),
+    ("augassign_target_contains_closure", "crash", r"AttributeError@FlowControl\.py:check_definitions", "augassign_target_contains_closure"),
     ("in_cascade_with_c_literal_operand", "crash", r"AttributeError@PyrexTypes\.py:widest_numeric_type", "in_cascade_with_c_literal_operand"),
-    ("in_cascade_with_c_literal_operand", "c_error", r"cannot convert to a pointer type", "in_cascade_with_c_literal_operand"),
+    ("in_cascade_with_c_literal_operand", "c_error", r"cannot convert to a pointer type|incompatible type for argument . of .__Pyx_Py\w+_Bool(Eq|Ne)ObjC", "in_cascade_with_c_literal_operand"),
     ("call_with_double_star_dict_display_computed_key", "crash", r"TypeError@ExprNodes\.py:generate_sequence_as_array_code", "call_with_double_star_dict_display_computed_key"),
     ("bitop_on_float_literal_in_call_keyword", "crash", r"AttributeError@ExprNodes\.py:generate_result_code", "bitop_on_float_literal_in_call_keyword"),
     ("module_global_reannotated_with_non_type", "crash", r"AttributeError@ExprNodes\.py:_analyse_target_declaration", "module_global_reannotated_with_non_type"),
     ("closure_in_with_target", "crash", r"UnspecifiedType|AssertionError@ParseTreeTransforms\.py:visit_ExprNode", "closure_in_with_target"),
     ("closure_in_with_target", "positioned", r"^'[^']*' redeclared|^Previous declaration is here", "closure_in_with_target"),
     ("flat_chain_over_1000_terms_recursion_error", "crash", r"RecursionError", "flat_chain_over_1000_terms"),
+    ("local_call_after_class_body_that_raises", "crash", r"AttributeError@Optimize\.py:get_constant_value_node.*cf_is_null", "local_call_after_class_body_that_raises"),
+    ("yield_in_function_decorator", "crash", r"AttributeError@ExprNodes\.py:generate_yield_code", "yield_in_function_decorator"),
     # triaged fuzz findings: generated C rejected by gcc
-    ("except_star_outside_function", "c_error", r"__pyx_skip_add_traceback.? undeclared", "except_star_outside_function"),
+    ("except_star_outside_plain_function", "c_error", r"__pyx_skip_add_traceback.? undeclared", "except_star_outside_plain_function"),
     ("except_star_empty_tuple", "c_error", r"expected expression before .\). token", "except_star_empty_tuple"),
     ("imag_literal_overflows_to_inf", "c_error", r"^.inf.? undeclared", "imag_literal_overflows_to_inf"),
     ("slice_bound_type_name_or_ellipsis", "c_error", r"lvalue required as unary .&. operand", "slice_bound_type_name_or_ellipsis"),
     ("slice_bound_tuple_literal", "c_error", r"incompatible type for argument . of .__Pyx_PyObject_(Get|Set|Del)Slice", "slice_bound_tuple_literal"),
+    ("float_call_with_keyword_argument", "c_error", r"incompatible types when assigning to type .double. from type .PyObject", "float_call_with_keyword_argument"),
+    ("with_context_c_float_value", "c_error", r"cannot convert to a pointer type", "with_context_c_float_value"),
     ("bool_operand_numeric_tuple_literal", "c_error", r"unknown type name .__pyx_ctuple_", "bool_operand_numeric_tuple_literal"),
     ("genexpr_over_attribute_of_builtin_value", "c_error", r"__pyx_genexpr_arg_\d+.? declared as a function", "genexpr_over_attribute_of_builtin_value"),
     # triaged fuzz findings: valid Python rejected
@@ -960,11 +1097,14 @@ FAMILY_RULES = [
     ("star_in_subscript", "positioned", r"^starred expression is not allowed here", "star_in_subscript"),
     ("unparenthesized_walrus_in_subscript", "positioned", r"^invalid syntax: assignment expression not allowed in this context", "unparenthesized_walrus_in_subscript"),
     ("starred_in_except_tuple", "positioned", r"^starred expression is not allowed here", "starred_in_except_tuple"),
+    ("match_bytes_literal_nested_sequence_pattern", "positioned", r"^Attempting to index non-array type 'int'", "match_bytes_literal_nested_sequence_pattern"),
     ("complex_literal_truth_test", "positioned", r"^Type 'double complex' not acceptable as a boolean", "complex_literal_truth_test"),
     ("condexpr_number_vs_tuple_literal", "positioned", r"^Incompatible types in conditional expression", "condexpr_number_vs_tuple_literal"),
     # operations on numeric literals that CPython compiles (TypeError only if executed) and Cython types statically
-    ("static_operand_type_error_on_literal_operands", "positioned", r"^Invalid operand types? for ", "bitop_on_float_literal"),
+    ("static_operand_type_error_on_literal_operands", "positioned", r"^Invalid operand types? for |^mod operator not supported for type 'double complex'", "bitop_on_float_literal"),
     ("static_operand_type_error_on_literal_operands", "positioned", r"^complex types are unordered", "complex_literal_ordering"),
+    ("builtin_call_wrong_arg_count", "positioned", r"^\w+\((x|\.\.\.)\) called with wrong number of args|^Call with wrong number of arguments \(expected", "builtin_call"),
+    ("non_ascii_char_literal_compared_with_int_literal", "positioned", r"^Only single-character string literals can be coerced into ints", "non_ascii_char_literal_compared_with_int_literal"),
     ("call_of_numeric_literal", "positioned", r"^Calling non-function type '(long|double|double complex)'", "call_of_numeric_literal"),
     ("slice_bound_float_literal", "positioned", r"^Cannot assign type '(double|double complex)' to 'Py_ssize_t'", "slice_bound_float_literal"),
     ("star_unpack_of_numeric_literal", "positioned", r"^starred expression is not allowed here", "star_unpack_of_numeric_literal"),
@@ -1021,8 +1161,9 @@ def judge(ctx, src, ext, r, py_ok):
         # every rejected message must belong to a registered family of this input; the first one that does not names the class
         feats = _src_features(src)
         ks = [match_family(feats, "positioned", m_) for m_ in bad]
-        if "imag_literal_leading_zero_underscore" in feats and match_family(feats, "positioned", " | ".join(bad[:2])):
-            ks = ["imag_literal_leading_zero_underscore"]       # '0_7j' is reported as a pair of syntax errors
+        if "imag_literal_leading_zero_underscore" in ks:        # '0_7j' is reported as a pair of syntax errors
+            ks = [k_ or ("imag_literal_leading_zero_underscore" if m_ == "Syntax error in simple statement list" else None)
+                  for k_, m_ in zip(ks, bad)]
         if all(ks):
             k = ks[0]
         else:
@@ -1030,6 +1171,43 @@ def judge(ctx, src, ext, r, py_ok):
         ctx.fail(k, inp, ["positioned", bad[:3]], "CPython compiles this text: accepted, or rejected with an allowlisted message")
         return k
     return None
+
+
+class _Deferred:
+    """stands in for ctx while judging results of the (not pristine) worker pool: failures of registered known classes go
+    straight to ctx.fail; anything else is kept back and must be confirmed by a pristine re-run first"""
+    def __init__(self, ctx):
+        self.ctx = ctx
+        self.unconfirmed = []       # (src, ext, py_ok, class seen in the pool)
+
+    def judge(self, src, ext, r, py_ok):
+        rec = []
+        probe = type("P", (), {"fail": lambda s_, *a, **k: rec.append(a)})()
+        k = judge(probe, src, ext, r, py_ok)
+        if k is None:
+            return None
+        if k in self.ctx.known_classes:
+            for a in rec:
+                self.ctx.fail(*a)
+        else:
+            self.unconfirmed.append((src, ext, py_ok, k))
+        return k
+
+    def confirm(self, jobs):
+        """re-run the kept-back programs pristine; report what they show there.  -> {(src, ext): confirmed class or None}"""
+        out = {}
+        if not self.unconfirmed:
+            return out
+        progs = [{"id": "c%d" % i, "ext": ext, "src": src} for i, (src, ext, ok, k) in enumerate(self.unconfirmed)]
+        res = compile_batch(self.ctx, progs, jobs=jobs, pristine=True)
+        for q, (src, ext, ok, k) in zip(progs, self.unconfirmed):
+            k2 = judge(self.ctx, src, ext, res[q["id"]], ok)
+            out[(src, ext)] = k2
+            if k2 != k:
+                self.ctx.note("worker-pool result %s was not reproduced by the pristine run (%s) for a %d-char %s input" % (
+                    k, k2 or "no violation", len(src), ext))
+        self.unconfirmed = []
+        return out
 
 
 # fixed regression probes: (id, ext, source, registered class this input is expected to show, or None).  The class is
@@ -1076,7 +1254,8 @@ FAMILY_PROBES = [
     ("class_hdr_comp", ".py", "b = [object]\nclass C(*[x for x in b]):\n    pass\n", "comprehension_in_class_header"),
     ("class_hdr_walrus", ".py", "class C((v := object)):\n    pass\n", "walrus_in_class_header"),
     ("mod_genexpr_walrus", ".py", "g = ((v := i) for i in [1])\n", "walrus_in_module_level_genexpr"),
-    ("augassign_genexpr", ".py", "def f(a, b):\n    a[(x for x in b)] += 1\n", "augassign_target_contains_genexpr"),
+    ("augassign_genexpr", ".py", "def f(a, b):\n    a[(x for x in b)] += 1\n", "augassign_target_contains_closure"),
+    ("augassign_lambda", ".py", "def f(a, b):\n    a[lambda c: b] %= b\n", "augassign_target_contains_closure"),
     ("in_cascade_float", ".py", "def f(x, y):\n    return x in y == 1.5\n", "in_cascade_with_c_literal_operand"),
     ("in_cascade_int", ".py", "def f(x, y, z):\n    return x in y == 0 >= z\n", "in_cascade_with_c_literal_operand"),
     ("dstar_dict_key", ".py", "k = 'sep'\nprint(**{k: ''})\n", "call_with_double_star_dict_display_computed_key"),
@@ -1087,7 +1266,8 @@ FAMILY_PROBES = [
     ("with_target_genexpr", ".py", "def f(c, d, e):\n    with c as d[(a for a in e)]:\n        pass\n", "closure_in_with_target"),
     ("flat_and_2000", ".py", "v = 1\nx = " + " and ".join(_CHAIN) + "\n", "flat_chain_over_1000_terms_recursion_error"),
     ("flat_cmp_2000", ".py", "v = 1\nx = " + " < ".join(_CHAIN) + "\n", "flat_chain_over_1000_terms_recursion_error"),
-    ("exstar_module", ".py", "import os\ntry:\n    os.x\nexcept* ValueError:\n    pass\n", "except_star_outside_function"),
+    ("exstar_module", ".py", "import os\ntry:\n    os.x\nexcept* ValueError:\n    pass\n", "except_star_outside_plain_function"),
+    ("exstar_coroutine", ".py", "import os\nasync def f():\n    try:\n        os.x\n    except* ValueError:\n        pass\n", "except_star_outside_plain_function"),
     ("exstar_empty", ".py", "def f(g):\n    try:\n        g()\n    except* ():\n        pass\n", "except_star_empty_tuple"),
     ("imag_inf", ".py", "x = 1e400j\n", "imag_literal_overflows_to_inf"),
     ("slice_type_name", ".py", "def f(x):\n    return x[int:]\n", "slice_bound_type_name_or_ellipsis"),
@@ -1109,6 +1289,15 @@ FAMILY_PROBES = [
     ("call_literal", ".py", "@1.5\ndef f(): pass\n", "call_of_numeric_literal"),
     ("slice_float", ".py", "def f():\n    return 'abc'[:.5]\n", "slice_bound_float_literal"),
     ("star_literal", ".py", "x = [*2]\n", "star_unpack_of_numeric_literal"),
+    ("with_float", ".py", "def f(v):\n    with v, 2j:\n        pass\n", "with_context_c_float_value"),
+    ("with_float_call", ".py", "def f(v):\n    with float(v):\n        pass\n", "with_context_c_float_value"),
+    ("match_bytes_nested", ".py", "def f(x):\n    match b'ab':\n        case [[y]]: pass\n", "match_bytes_literal_nested_sequence_pattern"),
+    ("call_after_raising_class", ".py", "def f():\n    def a(): pass\n    class B:\n        raise\n    a()\n", "local_call_after_class_body_that_raises"),
+    ("builtin_arity", ".py", "v = 1\nx = len(v, v)\n", "builtin_call_wrong_arg_count"),
+    ("builtin_arity_float", ".py", "v = 1\nx = float(v, 2)\n", "builtin_call_wrong_arg_count"),
+    ("float_keyword", ".py", "v = 1\nx = float(x=v)\n", "float_call_with_keyword_argument"),
+    ("char_vs_int", ".py", "x = '\\u00e9' <= 10\n", "non_ascii_char_literal_compared_with_int_literal"),
+    ("yield_decorator", ".py", "def g(d):\n    @d((yield))\n    def f(): pass\n", "yield_in_function_decorator"),
     ("async_for_literal", ".py", "async def f():\n    return [i async for i in 1.5]\n", "async_for_over_numeric_literal"),
 ]
 
@@ -1153,7 +1342,7 @@ def shrink(ctx, src, ext, klass, rounds=8):
         if not cands:
             break
         progs = [{"id": "s%d" % i, "ext": ext, "src": c} for i, c in enumerate(cands)]
-        res = compile_batch(ctx, progs)
+        res = compile_batch(ctx, progs, pristine=True)
         nxt = None
         for p in progs:
             vd = verdict(res[p["id"]])
@@ -1173,7 +1362,7 @@ def run_programs(ctx):
     import C43_gen
     rng = ctx.rng
     quick = ctx.tier == "quick"
-    n_gen, n_lit, n_mut = (14, 4, 14) if quick else (160, 40, 200)
+    n_gen, n_lit, n_mut = (12, 4, 12) if quick else (160, 40, 200)
     progs, meta = [], {}
     def add(kind, ext, src, forced=None):
         pid = "%s%d" % (kind[0], len(progs))
@@ -1202,7 +1391,9 @@ def run_programs(ctx):
         ctx.note("token snippet %s %r is rejected by CPython (%s); skipped" % (lab, s_, why))
     for i, (lab, src, singles) in enumerate(tgroups):
         progs.append({"id": "t%d" % i, "ext": ".py", "src": src})
-    res = compile_batch(ctx, progs, jobs=6 if quick else 10)
+    jobs = 6 if quick else 10
+    res = compile_batch(ctx, progs, jobs=jobs)
+    dj = _Deferred(ctx)
     tprogs = [p for p in progs if p["id"][0] == "t" and p["id"][1:].isdigit()]
     progs = [p for p in progs if p not in tprogs]
     retry = []
@@ -1220,15 +1411,15 @@ def run_programs(ctx):
         for p, lab, src, singles in retry:
             for j, (slab, ssrc) in enumerate(singles):
                 sprogs.append({"id": "%s_%d" % (p["id"], j), "ext": ".py", "src": ssrc, "label": slab})
-        sres = compile_batch(ctx, [{k_: v_ for k_, v_ in q.items() if k_ != "label"} for q in sprogs], jobs=6 if quick else 10)
+        sres = compile_batch(ctx, [{k_: v_ for k_, v_ in q.items() if k_ != "label"} for q in sprogs], jobs=jobs)
         for p, lab, src, singles in retry:
             found = False
             for q in [q for q in sprogs if q["id"].startswith(p["id"] + "_")]:
                 ctx.case("token_interaction_py_ok", {"ext": ".py", "src": q["src"][len(C43_gen.TOKEN_PRELUDE):][:200]}, sig=("tok_prog", q["label"]))
-                if judge(ctx, q["src"], ".py", sres[q["id"]], True):
+                if dj.judge(q["src"], ".py", sres[q["id"]], True):
                     found = True
             if not found:       # only the combination fails: report the group as it is
-                judge(ctx, src, ".py", res[p["id"]], True)
+                dj.judge(src, ".py", res[p["id"]], True)
     hist = {}
     unknown = {}
     for p in progs:
@@ -1248,10 +1439,11 @@ def run_programs(ctx):
                 feats = ""
         ctx.case("%s_%s_py%s" % (kind, ext.strip("."), "ok" if ok else "rejects"), {"ext": ext, "src": src[:300]},
                  sig=("prog", hash(src), ext))
-        k = judge(ctx, src, ext, r, ok)
+        k = dj.judge(src, ext, r, ok)
         if kind == "probe" and forced and k != forced:
             ctx.note("probe %s: expected class %s, observed %s%s" % (p["id"], forced, k or "no violation",
                                                                     " (repaired? then mark the finding fixed)" if k is None else ""))
+    for (src, ext), k in dj.confirm(jobs).items():
         if k and k not in ctx.known_classes and k not in unknown:
             unknown[k] = (src, ext)
     ctx.extra["outcome_histogram"] = {"%s/%s" % k: v for k, v in sorted(hist.items())}
@@ -1285,6 +1477,6 @@ def replay(ctx, obj):
     if "token" in inp:
         ctx.note("token replays run through the full token sweep")
         return run_tokens(ctx)
-    res = compile_batch(ctx, [{"id": "r0", "ext": inp["ext"], "src": inp["src"]}])
+    res = compile_batch(ctx, [{"id": "r0", "ext": inp["ext"], "src": inp["src"]}], pristine=True)
     ok, _ = py_accepts(inp["src"])
     judge(ctx, inp["src"], inp["ext"], res["r0"], ok)
